@@ -89,6 +89,9 @@ def _build():
                 "model gives the same wire bytes / values as the little-endian run (same reference layout)"),
     ]:
         add(Check(pr, ["gen_c"], explanation=ex))
+    add(Check("C12", bp_mods + ["py_ast"], explanation="wire format depends only on field numbers and resolved types: alias/enum "
+              "transparency and sorted-order contracts (_ast.py, bp.py), every listed rewrite of a base schema proved per program "
+              "(Python, C standard, C -O) against its own reference layout, and the lemma that those layouts are bit-identical"))
     comp = ["py_ast", "py_parser", "py_main_lint"]
     for pr, ex in [
         ("C08", "two-sided 'raises X <=> constraint violated' contracts on every validator of _ast.py / options.py for ALL integers "
